@@ -840,7 +840,8 @@ Inductive step :=
 | SList
 | SClose
 | SHold
-| SRelease.
+| SRelease
+| SCloseRace (o : fsop).   (* the operation's notifications are retrieved by the reader, and Close runs before it has handled them *)
 
 Inductive result := RFs (ok : bool) | RApi (e : option err) | RList (l : list string) | RNone.
 
@@ -856,6 +857,16 @@ Definition do_step (c : cfg) (s : st) (x : step) : st * result :=
   | SClose => let s0 := settle c (set_held false s) in (settle c (api_close c s0), RApi None)
   | SHold => (set_held true s, RNone)
   | SRelease => (settle c (set_held false s), RNone)
+  | SCloseRace o =>
+      (* schedule: earlier records are handled; the operation happens; kevent hands its records (one batch) to the reader;
+         Close runs; only then does the reader go through the batch (every send now finds the watcher closed) *)
+      let s0 := settle c (set_held false s) in
+      let '(k1, ok) := k_fsop (K s0) o in
+      let s1 := set_K (fun _ => k1) s0 in
+      let batch := firstn 10 (k_pend (K s1)) in
+      let s2 := set_K (k_set_pend (skipn 10)) s1 in
+      let s3 := api_close c s2 in
+      (settle c (handle_batch c s3 batch), RFs ok)
   end.
 
 Definition run (c : cfg) (h : list step) (s : st) : st := fold_left (fun s x => fst (do_step c s x)) h s.
@@ -1002,7 +1013,8 @@ Definition show_sizes (z : N * N * N * N * N) : string :=
 Definition sp_c17 (sp : spst) (x : step) (o : obs) : list viol :=
   if sp_closed sp then
     match x with
-    | SClose => (if match ob_led o with [] => true | _ => false end then [] else [("close-releases-all", "vnode descriptors left open")])
+    | SClose | SCloseRace _ =>
+                (if match ob_led o with [] => true | _ => false end then [] else [("close-releases-all", "vnode descriptors left open")])
                 ++ (match ob_infra o with (false, false, false) => [] | _ => [("close-releases-all", "kqueue or pipe left open")] end)
     | _ => []
     end
@@ -1085,10 +1097,16 @@ Definition spec_step (sp : spst) (x : step) (o : obs) : spst * list viol :=
                      sp_self := sp_self sp; sp_held := false; sp_closed := sp_closed sp; sp_muted := sp_muted sp |}
     | SClose => {| sp_fs := sp_fs sp; sp_user := []; sp_ever := sp_ever sp; sp_known := ∅; sp_pre := ∅;
                    sp_self := ∅; sp_held := false; sp_closed := true; sp_muted := sp_muted sp |}
+    | SCloseRace op =>
+        {| sp_fs := if ob_ok o then match fs_apply (sp_fs sp) op with Some (fs', _) => fs' | None => sp_fs sp end else sp_fs sp;
+           sp_user := []; sp_ever := sp_ever sp; sp_known := ∅; sp_pre := ∅;
+           sp_self := ∅; sp_held := false; sp_closed := true; sp_muted := sp_muted sp |}
     | _ => sp
     end in
   (* 2. the events delivered during the step (for SClose: the ones delivered before Close took effect are still checked) *)
-  let '(sp2, v_ev) := if sp_closed sp then (sp1, []) else sp_events sp1 (ob_evs o) in
+  (* a Close racing with the reader: which of the pending events still get through is up to the select in sendEvent *)
+  let racing := match x with SCloseRace _ => true | _ => false end in
+  let '(sp2, v_ev) := if sp_closed sp || racing then (sp1, []) else sp_events sp1 (ob_evs o) in
   (* 3. a successful Add / Remove takes effect *)
   let sp3 :=
     match x with
